@@ -6,6 +6,7 @@ CONSTANTS
   RegMode = "perposition"
   Walk = "recursive"
   Faults = FALSE
+  Nested = FALSE
 INIT Init
 NEXT Next
 INVARIANT VariantChoice
